@@ -353,9 +353,15 @@ Definition error_ok (i : ainput) (o : outcome) : bool :=
        match hist_of i (r_id r) with
        | HFound [] => false
        | HFound cl =>
-           if commit_regime_ref i p cl then
+           if commit_regime_ref i p cl
+              || mixed_old_before_window (i_cis i) (pstamp (i_cis i) p) (o_threshold (i_opts i)) cl then
              match current_at (i_cis i) cl (pstamp (i_cis i) p) with
              | Some c => negb (c_visible c)
+             | None => true
+             end
+           else if ts_regime_clean (i_cis i) (pstamp (i_cis i) p) (o_threshold (i_opts i)) cl then
+             match spec_select (i_cis i) (p_changeset p) (pstamp (i_cis i) p) (o_threshold (i_opts i)) cl with
+             | Some _ => false
              | None => true
              end
            else true
